@@ -90,6 +90,8 @@ def o_c01(run):
         if op == 'walk' and g.ops:
             c = g.ops[0].client
             acc = st.acc[c]
+            if not acc:
+                continue
             seq = [r for r in g.ops if r.op == 'gcv']
             exp_parent = st.base(c)
             for k, a in enumerate(acc):
@@ -938,4 +940,68 @@ def o_c17(run):
         got = [v for (st, v) in walk if st == 200]
         if got != chain or walk[-1][0] != 404:
             out.append(fail('C17: a restart on the same directory serves the same history', None, f'chain before the kill: {chain}; walk after restart: {walk}'))
+    return out
+
+# --------------------------------------------------------------------------------------------- C19 (fixtures written by the pinned release)
+
+def o_c19(run):
+    out = []
+    if 'fixture' not in run.kv:
+        return out
+    expect = {}
+    walks = collections.defaultdict(list)     # client -> list of walk groups (each a list of gcv recs)
+    opened = False
+    for r in run.recs:
+        if r.ws[0] == 'open':
+            opened = True
+            if r.impl != 'ok integrity=ok':
+                out.append(fail('C19: a data directory written by the pinned release opens with the current code', r, f'{r.impl}'))
+                return out
+        elif r.ws[0] == 'expect':
+            expect[r.ws[1]] = r.ws[2].replace(';', ' ')
+        elif r.op == 'dump' and r.meta and r.meta.get('op') == 'fixture-dump':
+            want = expect.get(r.client)
+            if want is not None and r.impl != want:
+                out.append(fail('C19: it serves exactly the history it contained: every client, version, payload, latest pointer and snapshot', r, f'client {r.client}: expected {want[:300]} ; served {str(r.impl)[:300]}'))
+    if not opened:
+        return out
+    for g, pd, praw, st in iterate(run):
+        op = g.meta.get('op')
+        if op == 'walk' and 'ci' in g.meta and int(g.meta['ci']) < len(run.clients):
+            walks[run.clients[int(g.meta['ci'])]].append([x for x in g.ops if x.op == 'gcv'])
+        if op == 'snapwalk' and g.ops and g.ops[0].op == 'gs':
+            c = g.ops[0].client
+            d = parse_dump(expect.get(c, ''))
+            o = g.ops[0].i_out
+            if d and d['snap']:
+                if o[0] != 'some' or o[1] != d['snap'][0] or short_of_bytes(blob_bytes(parse_http_obs(g.ops[0].impl).get('body', '-'))) != d['data']:
+                    out.append(fail('C19: the snapshot is served as it was stored', g.ops[0], f'expected {d["snap"][0]} data {d["data"]}, got {o[:2]}'))
+            elif d and o[0] == 'some':
+                out.append(fail('C19: the snapshot is served as it was stored', g.ops[0], f'no snapshot expected, got {o[:2]}'))
+        if op == 'av' and g.ops:
+            r = g.ops[-1]
+            cls = g.meta.get('class')
+            if cls == 'latest' and r.i_out[0] != 'ok':
+                out.append(fail('C19: new versions can then be appended to the existing chains', r, f'AddVersion on the latest version answered {r.i_out}'))
+    for c, ws in walks.items():
+        d = parse_dump(expect.get(c, ''))
+        if d is None or not ws:
+            continue
+        stored = {v[0]: v for v in d['V'].values()}
+        first = ws[0]
+        found = [x for x in first if x.i_out[0] == 'found']
+        ids = [x.i_out[1] for x in found]
+        if sorted(ids) != sorted(stored) or len(set(ids)) != len(ids):
+            out.append(fail('C19: every version of the stored history is served by walking the chain', first[0] if first else None, f'client {c}: stored {len(stored)} versions, walk returned {len(ids)}'))
+        for x in found:
+            v = stored.get(x.i_out[1])
+            body = blob_bytes(parse_http_obs(x.impl).get('body', '-'))
+            if v and (x.i_out[2] != v[1] or short_of_bytes(body) != v[2]):
+                out.append(fail('C19: versions are served with their parent and payload', x, f'expected {v}, got parent {x.i_out[2]} payload {short_of_bytes(body)}'))
+        if first and first[-1].i_out[0] != 'notfound':
+            out.append(fail('C19: the chain walk ends at the latest version', first[-1], f'{first[-1].i_out}'))
+        if len(ws) > 1:
+            n2 = len([x for x in ws[1] if x.i_out[0] == 'found'])
+            if n2 != len(ids) + 1:
+                out.append(fail('C19: new versions can then be appended to the existing chains', ws[1][0] if ws[1] else None, f'client {c}: walk after the append returned {n2} versions, expected {len(ids) + 1}'))
     return out
